@@ -4,6 +4,7 @@ import (
 	"bytes"
 	"context"
 	"fmt"
+	"runtime"
 	"sync"
 	"sync/atomic"
 	"time"
@@ -351,6 +352,164 @@ func hooksWait(f func() bool) bool {
 	return false
 }
 
+// sameToken: "a second request issued with a token that is still outstanding is rejected rather than displacing the first" when
+// the two are issued at the SAME instant: six callers, released together by a spin barrier, issue requests for six paths with one
+// caller-chosen token; the peer answers whatever reaches the wire. At most one is admitted (one request on the wire), the
+// others are refused, and the admitted caller gets the content of ITS path.
+func sameToken(transport string, burst, rounds int) StressRec {
+	r := StressRec{Op: "stress", Burst: burst, Transport: transport + "-same-token"}
+	const callers = 6
+	var do func(ctx context.Context, tok []byte, path string) (string, error)
+	var wire func(tok []byte) []string // paths of the requests with this token newly written (NOT answered yet)
+	var answer func(tok []byte, path string)
+	var closeFn func()
+	if transport == "tcp" {
+		t := conns.NewTCP(nil)
+		closeFn = t.Close
+		do = func(ctx context.Context, tok []byte, path string) (string, error) {
+			req, err := t.CC.NewGetRequest(ctx, path)
+			if err != nil {
+				return "", err
+			}
+			defer t.CC.ReleaseMessage(req)
+			req.SetToken(tok)
+			resp, err := t.CC.Do(req)
+			if err != nil {
+				return "", err
+			}
+			defer t.CC.ReleaseMessage(resp)
+			b, _ := resp.ReadBody()
+			return string(b), nil
+		}
+		off := 0
+		var wmu sync.Mutex
+		wire = func(tok []byte) []string {
+			wmu.Lock()
+			defer wmu.Unlock()
+			b := t.Stream.Written(off)
+			frames, rest := conns.Frames(b)
+			off += len(b) - len(rest)
+			var ps []string
+			for _, f := range frames {
+				if f.Code == int(codes.GET) && bytes.Equal(f.Token, tok) {
+					p, _ := f.Opts.Path()
+					ps = append(ps, p)
+				}
+			}
+			return ps
+		}
+		answer = func(tok []byte, p string) {
+			t.Stream.Feed(conns.Frame(int(codes.Content), tok, nil, []byte("content-for-"+p)))
+		}
+	} else {
+		u := conns.NewUDP(func(cfg *udpclient.Config) { cfg.TransmissionNStart = callers + 1 })
+		closeFn = u.Close
+		do = func(ctx context.Context, tok []byte, path string) (string, error) {
+			req, err := u.CC.NewGetRequest(ctx, path)
+			if err != nil {
+				return "", err
+			}
+			defer u.CC.ReleaseMessage(req)
+			req.SetToken(tok)
+			resp, err := u.CC.Do(req)
+			if err != nil {
+				return "", err
+			}
+			defer u.CC.ReleaseMessage(resp)
+			b, _ := resp.ReadBody()
+			return string(b), nil
+		}
+		seen := 0
+		var wmu sync.Mutex
+		mids := map[string]int32{}
+		wire = func(tok []byte) []string {
+			wmu.Lock()
+			defer wmu.Unlock()
+			var ps []string
+			for _, raw := range u.Sess.Out(seen) {
+				seen++
+				if d, err := memnet.Parse(raw); err == nil && d.Code == int(codes.GET) && bytes.Equal(d.Token, tok) {
+					p, _ := d.Opts.Path()
+					ps = append(ps, p)
+					mids[p] = d.MID
+				}
+			}
+			return ps
+		}
+		answer = func(tok []byte, p string) {
+			wmu.Lock()
+			mid := mids[p]
+			wmu.Unlock()
+			_ = u.InjectNoWait(memnet.Build(message.Acknowledgement, int(codes.Content), mid, tok, nil, []byte("content-for-"+p)))
+		}
+	}
+	defer closeFn()
+	for k := 0; k < rounds; k++ {
+		tok := []byte{0x57, byte(burst), byte(k >> 8), byte(k)}
+		type res struct {
+			path, body string
+			err        error
+		}
+		out := make(chan res, callers)
+		var ready atomic.Int64
+		for c := 0; c < callers; c++ {
+			go func(c int) {
+				path := fmt.Sprintf("/t%d/%d", c, k)
+				ctx, cancel := context.WithTimeout(context.Background(), time.Second)
+				defer cancel()
+				ready.Add(1)
+				for ready.Load() < callers {
+					runtime.Gosched()
+				}
+				b, err := do(ctx, tok, path)
+				out <- res{path, b, err}
+			}(c)
+		}
+		onWire := 0
+		got := 0
+		admitted := 0
+		var pending []string
+		deadline := time.Now().Add(2 * time.Second)
+		for got < callers && time.Now().Before(deadline) {
+			ps := wire(tok)
+			onWire += len(ps)
+			pending = append(pending, ps...)
+			// the peer withholds its answers until every other caller has come back (refused): requests that are on the wire
+			// together were outstanding together
+			if len(pending) > 0 && got+len(pending) >= callers {
+				for _, p := range pending {
+					answer(tok, p)
+				}
+				pending = nil
+			}
+			select {
+			case x := <-out:
+				got++
+				r.Calls++
+				if x.err == nil {
+					admitted++
+					if x.body != "content-for-"+x.path {
+						r.Wrong++
+						if r.First == "" {
+							r.First = fmt.Sprintf("%s (one of %d callers with the same token at the same instant) got %q", x.path, callers, x.body)
+						}
+					}
+				}
+			default:
+				time.Sleep(50 * time.Microsecond)
+			}
+		}
+		onWire += len(wire(tok))
+		if got < callers || admitted > 1 || onWire > 1 {
+			r.Wrong++
+			if r.First == "" {
+				r.First = fmt.Sprintf("round %d: %d of %d callers returned, %d admitted, %d requests with the token on the wire", k, got, callers, admitted, onWire)
+			}
+		}
+	}
+	return r
+}
+
 // Stress runs n bursts on udp and n/2 on tcp.
 func Stress(out string, n int) {
 	w := rec.Create(out)
@@ -364,6 +523,8 @@ func Stress(out string, n int) {
 	for b := 0; b < 4; b++ {
 		w.Put(reuse(3*n + 10 + b))
 	}
+	w.Put(sameToken("tcp", 3*n+20, 25*n))
+	w.Put(sameToken("udp", 3*n+21, 25*n))
 	// the library's own servers and clients of all four transports over loopback sockets
 	for i, tr := range []string{"udp", "dtls", "tcp", "tls"} {
 		w.Put(stressReal(tr, 2*n+i+1, 6, 200*time.Millisecond))
